@@ -19,6 +19,7 @@ import GambitV.Gen.PyCalcSig
 import GambitV.Gen.PySigList
 import GambitV.Gen.PyParams
 import GambitV.Gen.PyCluster
+import GambitV.Gen.PyGetitem
 import GambitV.Model.Params
 import GambitV.Model.Bulk
 import GambitV.Model.Indexing
@@ -206,6 +207,48 @@ def concatIndex (sigs : List (List Nat)) (ix : GambitV.Index) : Option String :=
       cmp "AdvancedIndexingMixin._getitem_bool_array" Gen.mixin_getitem_bool_array.untranslatable (show' (Gen.mixin_getitem_bool_array V B m)) model
     else none
   | _ => none
+
+/-- a dynamically typed index as the harness describes it (what `isinstance`, `len` and `np.asarray` say about the object):
+`int:i` · `slice:a:b:c` (`~` None, `?` not an integer) · `nd:NDIM/KIND/LEN/ENTRIES` · `sized:LEN:SPECIAL:(NDIM/KIND/LEN/ENTRIES | !)` · `unsized` -/
+def parseNd (s : String) : Option Py.NdArr :=
+  match s.splitOn "/" with
+  | [nd, k, ln, vals] => do
+    let ndim ← nd.toNat?
+    let kind ← k.toList.head?
+    let len0 ← ln.toNat?
+    if ndim == 1 && kind == 'b' then
+      pure { ndim, kind, len0, ints := [], bools := if vals == "-" then [] else vals.toList.map (· == '1') }
+    else if ndim == 1 && (kind == 'i' || kind == 'u') then
+      pure { ndim, kind, len0, ints := (← parseInts vals), bools := [] }
+    else pure { ndim, kind, len0, ints := [], bools := [] }
+  | _ => none
+
+def parseField (s : String) : Option (Option (Option Int)) :=
+  if s == "~" then some none else if s == "?" then some (some none) else s.toInt?.map (fun i => some (some i))
+
+def parseIdxVal (s : String) : Option Py.IdxVal :=
+  match s.splitOn ":" with
+  | ["int", i] => i.toInt?.map Py.IdxVal.int
+  | ["slice", a, b, c] => do pure (.slice (← parseField a) (← parseField b) (← parseField c))
+  | ["nd", a] => (parseNd a).map Py.IdxVal.nd
+  | ["sized", n, sp, a] => do
+    let n ← n.toNat?
+    if a == "!" then pure (.sized n (sp == "1") none) else pure (.sized n (sp == "1") (some (← parseNd a)))
+  | ["unsized"] => some .unsized
+  | _ => none
+
+/-- `__getitem__` of the packed collections: the dispatch generated from the current source (with the generated `_getitem_*` methods behind it)
+on the index as Python sees it, against what the real collection returned -/
+def getitem (sigs : List (List Nat)) (ix : Py.IdxVal) (real : String) : Option String :=
+  let c := Concat.ofList sigs
+  let V : List Int := c.values.map (fun (x : Nat) => (x : Int))
+  let B : List Int := c.bounds.map (fun (x : Nat) => (x : Int))
+  let gen : String := match Gen.concat_getitem V B ix with
+    | .ok (.one x) => "one:" ++ natsOf (x.map Int.toNat)
+    | .ok (.many r) => "many:" ++ natListsOf (Concat.toList { values := r.values.map Int.toNat, bounds := r.bounds.map Int.toNat })
+    | .raised e => "err:" ++ e.name
+    | .fuelOut => "err:fuel"
+  cmp "AdvancedIndexingMixin.__getitem__" Gen.concat_getitem.untranslatable gen real
 
 /-- `calc_signature` (default accumulator) on a list of sequences: the definition generated from the current sources of `calc_signature`,
 `accumulate_kmers`, `KmerMatch.kmer_index`, `find_kmers`, … against the real signature -/
